@@ -223,6 +223,13 @@ func (fr *frame) enterLoop(lp *loop, edges []inEdge, label string) (string, *Sta
 		escHdr := ft.fresh("$esc", arraySort(SRef, SBool))
 		ft.assume("true", fmt.Sprintf("(forall ((r Ref)) (! (=> (select %s r) (select %s r)) :pattern ((select %s r))))", escEntry, escHdr, escHdr))
 		st.heaps[escHeap] = escHdr
+		// a local variable whose address is only dereferenced (loaded from,
+		// stored to, merged in phis) is never handed out: it stays private
+		for _, a := range privateAllocs(fr.fn) {
+			if v, ok := fr.vals[a]; ok && v.T.S != "" && v.T.Sort == SRef {
+				ft.assume("true", not(sel(escHdr, v.T.S)))
+			}
+		}
 	}
 	// heaps written in the loop only by callees: objects this function
 	// allocated and that never escaped (also not in an earlier iteration) keep
@@ -463,4 +470,55 @@ func (b boundInv) eval(fr *frame, st *State, lp *loop) (string, error) {
 	}
 	// evaluated with the names of the supplying caller, in the current state
 	return b.owner.evalBool(b.E, st, b.owner.entry, nil)
+}
+
+// privateAllocs: allocations of local variables whose address never leaves the
+// function: every use (through phis) is the address operand of a load or a
+// store, or debug information.
+func privateAllocs(fn *ssa.Function) []*ssa.Alloc {
+	var out []*ssa.Alloc
+	for _, b := range fn.Blocks {
+		for _, ins := range b.Instrs {
+			a, ok := ins.(*ssa.Alloc)
+			if !ok {
+				continue
+			}
+			seen := map[ssa.Value]bool{}
+			private := true
+			var visit func(v ssa.Value)
+			visit = func(v ssa.Value) {
+				if seen[v] || !private {
+					return
+				}
+				seen[v] = true
+				refs := v.Referrers()
+				if refs == nil {
+					private = false
+					return
+				}
+				for _, r := range *refs {
+					switch u := r.(type) {
+					case *ssa.UnOp:
+						if u.Op != token.MUL {
+							private = false
+						}
+					case *ssa.Store:
+						if u.Val == v {
+							private = false // the address itself is stored somewhere
+						}
+					case *ssa.Phi:
+						visit(u)
+					case *ssa.DebugRef:
+					default:
+						private = false
+					}
+				}
+			}
+			visit(a)
+			if private {
+				out = append(out, a)
+			}
+		}
+	}
+	return out
 }
